@@ -2,7 +2,7 @@
 import ast
 import re
 
-from ..core import (AnalysisError, path, unparse, norm_test, facts_at, walk_own, split_assumes,
+from ..core import (AnalysisError, Unrecognised, path, unparse, norm_test, facts_at, walk_own, split_assumes,
                     const_str, root_name, no_kill_between)
 from ..events import name_defs, single_def, data_key
 from ..report import Ob
@@ -163,7 +163,7 @@ def r_esc(prog, tier):
                               'a token containing ( or ) is written verbatim into the bracketing',
                               construct='esc-brackets', line=n.lineno))
     if found == 0:
-        raise AnalysisError('write_brackets_subtree writes no token')
+        raise Unrecognised('write_brackets_subtree writes no token')
     return obs, {'xml_string_sinks': nsinks}
 
 
@@ -234,7 +234,7 @@ def r_vocab(prog, tier):
                 elif n.func.attr == 'get':
                     r_attrs.add(const_str(n.args[0]))
     if len(r_elems) < 6 or len(r_attrs) < 6:
-        raise AnalysisError('TIGER-XML reader vocabulary not found (%s / %s)' % (sorted(r_elems), sorted(r_attrs)))
+        raise Unrecognised('TIGER-XML reader vocabulary not found (%s / %s)' % (sorted(r_elems), sorted(r_attrs)))
     for e in sorted(r_elems):
         obs.append(Ob('R-VOCAB', 'treeoutput.tigerxml', 'element <%s> the reader looks for is written by the writer' % e,
                       e in w_elems, 'writer elements %s' % sorted(w_elems), construct='elem:' + e, nontrivial=False))
@@ -283,7 +283,7 @@ def r_tabs(prog, tier):
     f = prog.func('treeoutput', 'export_tabs')
     rets = [n for n in walk_own(f.node) if isinstance(n, ast.Return)]
     if not rets:
-        raise AnalysisError('export_tabs has no return')
+        raise Unrecognised('export_tabs has no return')
     for r in rets:
         s = const_str(r.value) if r.value is not None else None
         ok = s is not None and re.match(r'^\t+$', s) is not None
@@ -313,7 +313,7 @@ def r_guard(prog, tier):
                                                   or unparse(sub.func) == '%s.write' % f.params[1]):
                     outs.append((n, sub))
     if not outs:
-        raise AnalysisError('treeoutput.brackets writes nothing')
+        raise Unrecognised('treeoutput.brackets writes nothing')
     for (n, sub) in outs:
         facts = [x[0] for x in facts_at(cfg, n.id)]
         ok = any(c in facts for c in cont)
@@ -377,7 +377,7 @@ def r_guard(prog, tier):
     breaks = [n for n in cfg.eval_nodes() if n.kind == 'stmt' and isinstance(n.ast, ast.Break)
               and len(n.loops) == 1]
     if len(outer) != 1 or len(breaks) != 1 or len(appends) < 4:
-        raise AnalysisError('transitions.gap: main loop / break / transition emissions not found (%d/%d/%d)'
+        raise Unrecognised('transitions.gap: main loop / break / transition emissions not found (%d/%d/%d)'
                             % (len(outer), len(breaks), len(appends)))
     brk = breaks[0]
     unary_app = []
@@ -390,7 +390,7 @@ def r_guard(prog, tier):
                 txt = t
         (unary_app if txt and 'UNARY' in txt else other_app).append(a)
     if not unary_app:
-        raise AnalysisError('transitions.gap emits no UNARY transition')
+        raise Unrecognised('transitions.gap emits no UNARY transition')
     closure_tests = set()
     for a in unary_app:
         inner = [cfg.nodes[l] for l in a.loops if l != outer[0].id]
@@ -459,7 +459,7 @@ def r_guard(prog, tier):
                 if isinstance(sub, ast.Subscript) and unparse(sub).endswith(".data['head']") and isinstance(sub.ctx, ast.Load):
                     reads.append((n, sub))
     if not reads:
-        raise AnalysisError('_binarize_tree does not read head marks')
+        raise Unrecognised('_binarize_tree does not read head marks')
     for (n, sub) in reads:
         X = unparse(sub.value)
         facts = [x[0] for x in facts_at(cfg, n.id)]
